@@ -581,7 +581,7 @@ func c11Jobs(tier string) []string {
 			jobs = append(jobs, fmt.Sprintf("len:%s:%d/8", fam, i))
 		}
 	}
-	jobs = append(jobs, "big", "raw", "kinds", "filter")
+	jobs = append(jobs, "big", "raw", "kinds", "filter", "loopback")
 	for i := 0; i < 8; i++ {
 		jobs = append(jobs, fmt.Sprintf("seq:%d/8", i))
 	}
@@ -689,6 +689,16 @@ func c11Run(job, tier string, deadline time.Time) *engine.Result {
 		}
 		r.Execs, r.Transitions, r.Nontrivial = 16, 16, 16
 		r.Sample(map[string]interface{}{"raw": "UDP length field vs IP payload length: payload {0,1,7,100} x trailing octets {0,1,4,17}"})
+	case "loopback":
+		for _, fam := range []string{"4", "6", "m"} {
+			for _, l := range []int{0, 1, 7, 8, 1000, 1472, 9000, 60000} {
+				r.Execs++
+				r.Transitions += 2
+				r.Nontrivial++
+				report(c11Loopback(fam, l), map[string]interface{}{"job": job, "loopfam": fam, "len": l})
+			}
+		}
+		r.Sample(map[string]interface{}{"loopback": "two sockets of one stack over the repository's loopback link (checksum offload), families 4/6/v4-mapped x 8 lengths"})
 	case "filter":
 		skipped := 0
 		for i := range c11Setups() {
@@ -736,6 +746,17 @@ func c11Replay(rp json.RawMessage) *engine.Violation {
 	}
 	if json.Unmarshal(rp, &fl) == nil && fl.Job == "filter" && fl.Filter != nil {
 		if _, f := c11Filter(*fl.Filter); f != nil && f.key != "skip" {
+			return &engine.Violation{Property: "C11", Kind: "udp", Key: f.key, Detail: f.msg}
+		}
+		return nil
+	}
+	var lp struct {
+		Job     string
+		Loopfam string
+		Len     int
+	}
+	if json.Unmarshal(rp, &lp) == nil && lp.Job == "loopback" {
+		if f := c11Loopback(lp.Loopfam, lp.Len); f != nil {
 			return &engine.Violation{Property: "C11", Kind: "udp", Key: f.key, Detail: f.msg}
 		}
 		return nil
